@@ -202,7 +202,11 @@ func Intersection(a0, a1, b0, b1 Point) Point {
 		pt = Point{pt.Mul(-1)}
 	}
 
-	return pt
+	// A coordinate that is exactly zero can come out as +0 or -0 depending on
+	// the argument order (only some orders negate the point above). Adding +0
+	// maps -0 to +0 and changes nothing else, which makes the result
+	// bit-identical when the edges are swapped or reversed.
+	return Point{pt.Add(r3.Vector{})}
 }
 
 // Computes the cross product of two vectors, normalized to be unit length.
